@@ -491,6 +491,59 @@ CHECKS["C18"].update(
          "the oracle only (C13); the extractor and analysis sources are not translated, they are tied by correspondence.",
     technique="Coq proof over model run on a structure-derived value table; vm_compute correspondence incl. accessor pin")
 
+CHECKS["C13"].update(
+    text="Freshness, closure (without the sortedness hypothesis for accepted clones; unsorted use-before-def is rejected since "
+         "82dd72c), faithfulness of the canonical serialization (tied to to_proto by a projection), and independence under a "
+         "21-operation edit alphabet are proved in Coq for all heaps/histories over a heap model in which tensors are shared "
+         "cells with a mutable name and non-graph Attr objects are shared cells: every non-tensor cell of the other copy is "
+         "unchanged by any history on one copy; all cells and the serialization for rename-free histories (also through "
+         "functionalize); the tensor-rename alias and the shared-Attr in-place edit are refuted/characterised by vm_compute "
+         "witnesses. Tied by heap-isomorphism correspondence with the real clone() entry points plus interleaved edit "
+         "histories evaluated inside Coq; a public-API oracle supplies replays.",
+    note=TRUST + "Modelled, not verified: back-pointers/name authority (C01), tensor fields other than the name, Attr.meta, "
+         "renaming of initializers (dict re-keying), inner element-type sharing, functionalize's wrapper itself (tied by the "
+         "oracle over 5 pass compositions); Iso.v (case-file support) is trusted harness.",
+    technique="Coq proof over a hand heap model (cloner + edit alphabet, separation/frame); vm_compute heap-isomorphism + "
+              "to_proto-projection correspondence; public-API oracle")
+CHECKS["C15"].update(
+    text="Coq proofs over three executable models. (A) NameAuthority and Graph construction / append / extend / insert: "
+         "freshness against the full log of registered and assigned names for every edit history, and at construction "
+         "against every explicit name of the graph being built (after f54d66f). (B) NameFixPass after 25cf9b5 and 5fabe37, "
+         "including recording of captured names in the owning scopes: never raises, full per-graph post-condition, unique "
+         "names kept across functions, only names change, and never worse on any scoping; each holds under an explicit "
+         "hypothesis (I5 invariant / closed traversal / well-scoped / disjoint functions) shown necessary by a refuted "
+         "witness. (C) rename_values is all-or-nothing for every assignment, pending initializers included. Tied on every "
+         "run by Coq-evaluated correspondence of names, initializer dictionaries, outcomes, owner map, non-name payload "
+         "tokens and const flags; three known findings (ill-scoped models) are replayed, four fixed ones are corpus cases.",
+    technique="Coq proof over models of the name authority, NameFixPass and rename_values; vm_compute correspondence per case")
+CHECKS["C19"].update(
+    text="DevInv (annotations target current inputs/outputs and registered configurations; axes, shards and devices valid) "
+         "is proved inductive over all histories of 13 ops (shard, set_pipeline_stage, add/remove configuration, rename, "
+         "replace_input_with, resize_outputs, resize_inputs, remove node, clone with deep_copy and allow_outer_scope_values, "
+         "round trip at any IR version, shape edit) on models with nested subgraph bodies and a function; "
+         "deserialize∘serialize = id on the annotation state through an explicit by-name proto and scope-stack resolution "
+         "(C19_deser_ser_id); the library checker is silent on DevInv states and reports at most axis messages on the weak "
+         "invariant DevInvW that survives arbitrary shape edits; drop, reject-frame and rejection theorems. Tied to /repo by "
+         "per-step correspondence evaluated in Coq (node state, checker output, per-configuration serialization, the full "
+         "to_proto multi-device content) plus a public-API oracle.",
+    note=TRUST + "Round trips are modelled only where the graph wiring itself survives them (rt_domain). Subgraph bodies have "
+         "no inputs of their own; values are used only inside their own root graph; function-input shapes are not carried by "
+         "FunctionProto. Behaviour after shape edits of sharded values is unspecified by the library (C19_shape_edit_unspecified: "
+         "observation, not a violation).",
+    technique="Coq invariant proof over annotation heap model incl. explicit proto round trip; per-step vm_compute correspondence")
+CHECKS["C08"].update(
+    text="Coq model of the single-file external-data save (serial AND parallel writer) as a try/finally program of OS effects "
+         "over a path->node file system; proved for every kill point combined with any single fault and any exception kind: "
+         "destination = old node or exactly the complete new bytes (C08_crash_atomic, C08_interrupt_atomic and their "
+         "_parallel versions: faults at preallocation open/truncate/close, worker open r+b, every write, worker close); a "
+         "failed save leaves the whole directory and tensor validity untouched; a sharded save changes no existing path; "
+         "invalidation only for realpath = destination. Tied by effect-trace equality plus post-state comparison at every "
+         "fault/kill index inside Coq (serial, and parallel under a deterministic one-worker schedule).",
+    note=TRUST + "Modelled, not verified: atomicity of os.replace, power loss. Oracle only: real multi-thread schedules (C09), "
+         "the real-file copy_file_range path, lossy-close faults, the sharded pre-flight. Contracts as hypotheses: mkdtemp "
+         "returns a fresh name; destination is not a directory.",
+    technique="Coq proof over effect-program model with kill/fault points; vm_compute trace + post-state correspondence")
+
 
 def main():
     props = [json.loads(l) for l in open(os.path.join(VERIF, "properties.jsonl"))]
